@@ -166,6 +166,7 @@ class Interp:
         self.opts = opts or {}
         self.depth = 0
         self.lifted = {}
+        self.module_shadows = {}
         self.call_hooks = []
         self.inline_log = set()
         self.live_gens = []
@@ -378,6 +379,8 @@ class Interp:
             self.fail("AttributeError", f"{type(obj).__name__}.{name}", node)
         if isinstance(val, types.MethodType) and S.is_repo_function(val.__func__):
             return Bound(val.__func__, val.__self__)
+        if isinstance(obj, types.ModuleType) and type(val) in (list, dict, set) and S.is_repo_file(getattr(obj, "__file__", "") or ""):
+            return self.module_state(val)
         return self.lift(val)
 
     def lift(self, v):
@@ -396,6 +399,25 @@ class Interp:
         if mod is not None and S.is_repo_file(getattr(mod, "__file__", "") or ""):
             return self.lift_instance(v)
         return v
+
+    def module_state(self, container):
+        """Module-level list/dict/set of the repository: every analysed path works on its OWN structural copy, taken at
+        first use (state written by the analysed code is seen by later calls on the same path - histories - and never
+        leaks into the imported module, another path or another contract)."""
+        key = id(container)
+        hit = self.module_shadows.get(key)
+        if hit is None:
+            def cp(x):
+                if type(x) is list:
+                    return [cp(e) for e in x]
+                if type(x) is dict:
+                    return {k: cp(e) for k, e in x.items()}
+                if type(x) is set:
+                    return set(x)
+                return x
+            hit = (container, cp(container))
+            self.module_shadows[key] = hit
+        return hit[1]
 
     def lift_instance(self, native):
         key = id(native)
@@ -707,6 +729,12 @@ class Interp:
                 S.record_use(fi, fnode, f"{fn.__module__}:{fn.__qualname__} (via contract)")
                 return sm.handler(self, args, kwargs, node)
             return self.call_func(self.make_func(fn), args, kwargs, node)
+        if self.call_hooks and callable(fn) and not isinstance(fn, Obj):
+            # a stub declared by a contract on something outside the repository (builtins.open, a library kernel)
+            for hook in self.call_hooks:
+                r = hook(self, fn, args, kwargs, node)
+                if r is not _MISSING:
+                    return r
         if isinstance(fn, type):
             return self.instantiate(fn, args, kwargs, node)
         if isinstance(fn, Obj):
@@ -1044,7 +1072,10 @@ class Interp:
             fr = fr.parent
         g = frame.func.globals if frame.func is not None else {}
         if name in g:
-            return self.lift(g[name])
+            v = g[name]
+            if type(v) in (list, dict, set) and S.is_repo_file(g.get("__file__", "") or ""):
+                return self.module_state(v)
+            return self.lift(v)
         if hasattr(builtins, name):
             return getattr(builtins, name)
         if name == "__class__" and frame.func is not None and frame.func.defcls is not None:
@@ -1761,6 +1792,13 @@ class Interp:
             return
         if isinstance(o, dict) and not isinstance(idx, (SV, SStr)):
             o[idx] = v
+            return
+        if isinstance(o, list) and isinstance(idx, LibObj) and idx.kind == "slice" \
+                and all(idx.fields[k] is None or isinstance(idx.fields[k], int) for k in ("start", "stop", "step")):
+            try:
+                o[slice(idx.fields["start"], idx.fields["stop"], idx.fields["step"])] = list(self.iterate(v, node))
+            except ValueError as ex:
+                self.fail("ValueError", str(ex), node)
             return
         r = self.lib.setitem(self, o, idx, v, node)
         if r is _MISSING:
